@@ -195,8 +195,18 @@ func FormatInputLayout(seed uint64, layout int) []byte {
 		lr := NewRng(SubSeed(seed, "layout", layout))
 		return []byte(joinLayout(toks, lr, 1+lr.Intn(4), false))
 	}
-	if r.Chance(1, 5) {
-		return []byte(strings.Join(toks, " "))
+	if r.Chance(1, 3) {
+		// a one-line text (what people paste after -d): only possible when no
+		// comment would swallow the rest of the line
+		hasComment := false
+		for _, t := range toks {
+			if strings.HasPrefix(t, "//") {
+				hasComment = true
+			}
+		}
+		if !hasComment {
+			return []byte(strings.Join(toks, " "))
+		}
 	}
 	return []byte(joinNoisy(toks, r, 1+r.Intn(4)))
 }
